@@ -50,7 +50,7 @@ RULE = ('a case is one round: a seeded script of wait(timeout)/notify/notify_all
 ASSUMPTIONS = [
     'the C SemLock (CPython _multiprocessing, used because _billiard does not build) and the kernel semaphores are trusted; billiard.synchronize logic is what is checked',
     'interleavings are sampled (random delays 0-2 ms and position gates at each semaphore operation), not enumerated',
-    'a lost wake-up is declared after a wall-clock bound (3 s + confirm-alone re-run); an unbounded liveness claim is not decided',
+    'a lost wake-up is declared only when a sleeper that had not acknowledged by the time notify returned stays blocked for a further 5 s (plus confirm-alone re-run); an unbounded liveness claim is not decided',
     'BoundedSemaphore over-release is probed only at quiescent points (the C check sem_getvalue+sem_post is not atomic by design)',
 ]
 FLOORS = {
@@ -1491,8 +1491,8 @@ def run_event(spec, rec):
 # --------------------------------------------------------------------------
 
 class MutexWorld(World):
-    """slots: xbase+aid = 1 while actor is inside; xbase+32 = unprotected
-    counter; per-actor results in its cell block"""
+    """slots: xbase+aid = enter/exit counter of the actor (odd while inside);
+    xbase+40 = unprotected read-modify-write counter"""
 
     def __init__(self, ctx, nact, kind, n):
         World.__init__(self, nact, extra=64)
@@ -1512,7 +1512,7 @@ class MutexWorld(World):
         me = xb + ac.aid
         rng = ac.rng
         nact = self.nact
-        sections = refused = contended = maxocc = over = reent = tofalse = 0
+        sections = refused = contended = maxocc = over = reent = tofalse = snaps = 0
         early = []
         rlock = self.kind == 'RLock'
         for it in range(st['iters']):
@@ -1555,10 +1555,19 @@ class MutexWorld(World):
                     else:
                         depth += 1
                         reent += 1
-            a[me] = 1
+            a[me] += 1                   # odd: inside (only the owner writes its slot)
+            # atomic snapshot by double collect: two identical reads of the
+            # per-actor enter/exit counters bracket an instant at which all
+            # of them held together (a single pass could count a holder that
+            # left and another that entered while the reader was descheduled)
             occ = 0
-            for j in range(nact):
-                occ += a[xb + j]
+            for _try in range(4):
+                s1 = [a[xb + j] for j in range(nact)]
+                s2 = [a[xb + j] for j in range(nact)]
+                if s1 == s2:
+                    occ = sum(v & 1 for v in s1)
+                    snaps += 1
+                    break
             if occ > maxocc:
                 maxocc = occ
             if occ > n:
@@ -1575,7 +1584,7 @@ class MutexWorld(World):
             elif rng.random() < 0.5:
                 time.sleep(rng.random() * 0.0003)
             sections += 1
-            a[me] = 0
+            a[me] += 1                   # even: outside
             try:
                 if style >= 0.9 and depth == 1:
                     obj.__exit__(None, None, None)
@@ -1584,7 +1593,7 @@ class MutexWorld(World):
                         obj.release()
             except Exception as exc:
                 ac.ev('M_relexc', repr(exc))
-        ac.ev('M', sections, refused, contended, maxocc, over, reent, tofalse, early[:3])
+        ac.ev('M', sections, refused, contended, maxocc, over, reent, tofalse, early[:3], snaps)
 
 
 def mutex_probes(rec, ctx, rng):
@@ -1717,6 +1726,7 @@ def run_mutex(spec, rec):
                         maxocc = max(maxocc, e[5])
                         rec.count('rlock_reentries', e[7])
                         rec.count('acquire_timeouts', e[8])
+                        rec.count('occupancy_snapshots', e[10] if len(e) > 10 else 0)
                         if e[6]:
                             rec.violation('admitted_more_holders_than_count', attrs,
                                           n=n, times=e[6], max_inside=e[5])
